@@ -461,7 +461,13 @@ func (fr *Frame) execInstr(in ssa.Instruction) {
 			v.T = fr.termOf(v)
 		}
 		if l.Kind != LReg {
-			fr.markEscaped(v)
+			if l.Kind == LBox && fr.isOwnBox(l.Ref.S) {
+				// stored into a local variable cell that only this code can reach (a variable that a function literal
+				// captures lives in such a cell): the value is as private as the cell; it escapes when the cell does
+				fr.R.boxHolds[l.Ref.S] = append(fr.R.boxHolds[l.Ref.S], v)
+			} else {
+				fr.markEscaped(v)
+			}
 		}
 		fr.store(l, fr.termOf(v))
 		if g, ok := in.Addr.(*ssa.Global); ok && fr.top && fr.R.inInit {
